@@ -15,7 +15,8 @@ import struct
 FAMILIES = ["none", "hdr-field", "forged", "salt-iv", "rehash-block", "resign", "phase", "crossversion",
             "hdr-field", "block", "signature", "pubkey", "sharehash", "blockhash", "flap", "crossfile",
             "hdr-field", "forged", "phase", "encprivkey", "randflip", "truncate", "swapshnum", "delete",
-            "server-fault", "container", "salt-iv", "flap", "rehash-block", "hdr-field", "dup-bad-copy"]
+            "server-fault", "container", "salt-iv", "flap", "rehash-block", "hdr-field", "dup-bad-copy",
+            "truncate-inside", "poison-chain", "truncate-inside", "poison-chain", "truncate-inside"]
 
 MAX_STEPS = 15000     # scheduler steps per read: a read of these sizes needs a few hundred
 
@@ -34,7 +35,7 @@ def run(ck):
                "between servermap update and retrieve) + 1..2 reads of a generated kind/range; distinct = (family, "
                "detail, format, k, N, sizes, read kind, range); non-trivial = something was damaged, substituted, "
                "forged or answered falsely")
-    counter = [ck.shard * 7, ck.shard * 3]
+    counter = [ck.shard * 7, ck.shard * 3, ck.shard * 5, ck.shard]
     i = 0
     try:
         while not ck.out_of_time():
@@ -198,7 +199,12 @@ class History(object):
             self.counter[0] += 1
             if fam == "hdr-field":
                 self.counter[1] += 1
-            self.one_round(fam, self.counter[1])
+            if fam == "truncate-inside":
+                self.counter[2] += 1
+            if fam == "poison-chain":
+                self.counter[3] += 1
+            self.one_round(fam, self.counter[2] if fam == "truncate-inside" else
+                           (self.counter[3] if fam == "poison-chain" else self.counter[1]))
 
     def reset(self):
         g = self.g
@@ -234,6 +240,8 @@ class History(object):
             kind = rng.choice(READ_KINDS + ["dbv-ro-fresh", "dbv-rw-fresh"])
             if fam == "flap" and rng.random() < .5:
                 kind = rng.choice(["smap-copy-dlv", "version-read", "dbv-ro-fresh"])
+            if fam in ("truncate-inside", "poison-chain"):
+                kind = rng.choice(["dbv-ro-fresh", "dbv-rw-fresh", "dbv-writer", "dbv-rw-fresh"])
             if rng.random() < .15 and kind in ("version-read", "smap-dlv", "smap-copy-dlv"):
                 sub = rng.choice(["salt-iv", "crossversion", "block"])
                 between = lambda: self.apply(sub, dmg, sweep)   # noqa: E731
@@ -317,6 +325,44 @@ class History(object):
                 dmg.note("s%d sh%d container.%s" % (idx, shnum, what))
             return
 
+        if fam == "truncate-inside":
+            # shares the Retrieve will activate first (lowest share numbers), cut short at a position walked
+            # deterministically through every structural boundary -1/0/+1 and through aligned and non-aligned
+            # positions inside every variable-length section
+            shares = sorted([x for x in M.disk_shares(g, self.si) if x[2].fmt is not None], key=lambda x: x[1])
+            if not shares:
+                raise Skip("no shares")
+            k = self.k_newest
+            nv = rng.choice([1, 1, max(1, min(k, len(set(x[1] for x in shares)) - k))])
+            lowest = sorted(set(x[1] for x in shares))[:nv]
+            for (idx, shnum, ms) in shares:
+                if shnum not in lowest:
+                    continue
+                cands = set()
+                for name, (s_, e_) in ms.regions().items():
+                    if e_ <= s_ or s_ > len(ms.data):
+                        continue
+                    e2 = min(e_, len(ms.data))
+                    cands.update([s_ - 1, s_, s_ + 1, e2 - 1])
+                    es = {"share_hash_chain": 34, "block_hash_tree": 32}.get(name)
+                    if es:
+                        for j in range(min(8, max(1, (e2 - s_) // es))):
+                            base = s_ + es * j
+                            cands.update([base, base + 1, base + 2, base + es // 2, base + es - 1])
+                    else:
+                        cands.update([s_ + (e2 - s_) // 2, s_ + (e2 - s_) // 3 + 1, s_ + 16, s_ + 17])
+                cands = sorted(c for c in cands if 0 <= c < len(ms.data))
+                pos = cands[sweep % len(cands)]
+                where = [n for n, (s_, e_) in ms.regions().items() if s_ <= pos < e_]
+                ms.truncate_data(pos)
+                ms.save()
+                dmg.changed += 1
+                dmg.note("s%d sh%d cut@%d (%s+%d)" % (idx, shnum, pos, where[0] if where else "?",
+                                                     pos - ms.regions()[where[0]][0] if where and ms.fmt else 0))
+            return
+        if fam == "poison-chain":
+            self.poison(dmg, sweep)
+            return
         if fam == "dup-bad-copy":
             # the same share number on two servers, one of the two copies damaged below the signed prefix
             shares = [x for x in M.disk_shares(g, self.si) if x[2].fmt is not None and x[2].num_segments() > 0]
@@ -577,6 +623,73 @@ class History(object):
             ms.save()
             return "forged"
         raise Skip("unknown family " + fam)
+
+    def poison(self, dmg, sweep):
+        """Share hash chains of the form (valid node number, WRONG hash) ... (out-of-range number, junk): the
+        carrier share is rejected, but if the wrong hash were left in the share hash tree that one Retrieve shares
+        across all shares it would make honest shares fail (variant 'availability': node 1 or 2 of the tree, carriers =
+        the k shares activated first) or let a re-hashed forged block of another share through (variant 'integrity':
+        the leaf of the share activated next, whose own chain repeats the planted value)."""
+        import struct as _s
+        M, rng, g = self.M, self.rng, self.g
+        shares = sorted([x for x in M.disk_shares(g, self.si) if x[2].fmt is not None], key=lambda x: x[1])
+        if not shares:
+            raise Skip("no shares")
+        by_shnum = {}
+        for x in shares:
+            by_shnum.setdefault(x[1], []).append(x)
+        ref = shares[0][2]
+        k, N = ref.f["k"], ref.f["N"]
+        nentries = len(ref.share_hash_chain())
+        L = 1
+        while L < N:
+            L *= 2
+        first_leaf = L - 1
+        nodes = 2 * L - 1
+        if nentries < 2 or ref.num_segments() == 0:
+            raise Skip("chain too short to carry a two-step poison")
+
+        def write_chain(ms, entries):
+            s_, e_ = ms.regions()["share_hash_chain"]
+            raw = b"".join(_s.pack(">H32s", n_, h_) for (n_, h_) in entries)
+            assert len(raw) == e_ - s_
+            ms.data[s_:e_] = raw
+            ms.parse()
+            ms.save()
+
+        def junk_tail(n):
+            return [((0xFFFF - j) if j % 2 == 0 else (nodes + j), rng.randbytes(32)) for j in range(n)]
+
+        variant = "integrity" if (sweep % 2 == 0 and k <= 2 and N >= k + 1 and k in by_shnum) else "availability"
+        if variant == "availability":
+            target = rng.choice([1, 2])
+            carriers = sorted(by_shnum)[:k]
+            wrong = rng.randbytes(32)
+            for shnum in carriers:
+                for (idx, sh, ms) in by_shnum[shnum]:
+                    write_chain(ms, [(target, wrong)] + junk_tail(nentries - 1))
+                    dmg.changed += 1
+            dmg.note("poison availability: node %d via carriers %s, then out-of-range numbers" % (target, carriers))
+        else:
+            # carrier = share 0 (activated first); forged share X = k (activated when the carrier is dropped)
+            X = k
+            victim_list = by_shnum[X]
+            forged_leaf = None
+            for (idx, sh, ms) in victim_list:
+                _, (bs, be) = ms.block_span(0)
+                if forged_leaf is None:
+                    self._forged_block = rng.randbytes(be - bs)
+                ms.write_at(bs, self._forged_block)
+                if not M.rehash_blocks(ms):
+                    raise Skip("rehash")
+                forged_leaf = ms.block_hash_nodes()[0]
+                write_chain(ms, [(first_leaf + X, forged_leaf)] * nentries)
+                dmg.changed += 1
+            for (idx, sh, ms) in by_shnum[sorted(by_shnum)[0]]:
+                write_chain(ms, [(first_leaf + X, forged_leaf)] + junk_tail(nentries - 1))
+                dmg.changed += 1
+            dmg.note("poison integrity: carrier sh%d plants leaf of sh%d (forged block, re-hashed tree, chain repeats "
+                     "the planted leaf)" % (sorted(by_shnum)[0], X))
 
     def install_flap(self, dmg):
         M, rng, g = self.M, self.rng, self.g
@@ -857,6 +970,24 @@ class History(object):
             pass
         return "delivered-unpublished-bytes/" + fam
 
+    def control_read(self, kind):
+        """A fresh node of the same kind reads the grid as it is now, under the schedule most favourable to survey
+        coverage (classification only, never a verdict).  True iff it delivers a published plaintext."""
+        p, g = self.p, self.g
+        c3 = g.make_client(k=p["k"], happy=1, n=p["n"], mutable_format=p["fmt"])
+        uri = self.ro_uri if kind == "dbv-ro-fresh" else self.rw_uri
+        # deterministic delivery: strictly in send order (profile "fifo"), and before any further local processing
+        old, old_profile = g.sched.chooser, g.sched.profile
+        g.sched.chooser = self.M.net_first_chooser(self.ck.rng("control"))
+        g.sched.profile = "fifo"
+        try:
+            st3, r3 = g.wait(c3.create_node_from_uri(uri).download_best_version(), horizon=4 * 3600.0, max_steps=MAX_STEPS)
+        finally:
+            g.sched.chooser, g.sched.profile = old, old_profile
+        if st3 not in ("ok", "err"):
+            self.runaway = True
+        return st3 == "ok" and self.match(r3, 0, None) is not None
+
     def classify_unavailable(self, kind, dmg, good, errname=None):
         """Mechanism class of an availability failure, from ground truth only."""
         newest = self.snaps[-1]
@@ -881,6 +1012,41 @@ class History(object):
                 o2 = bytes(ref.data[ref.prefix_len():ref.regions()["header"][1]])
                 if o1 != o2:
                     return "share-with-edited-unsigned-offset-table-outranks-intact-shares"
+        if kind.startswith("dbv") and not self.runaway:
+            # control 0: the same grid, the same kind of node, but no answer arrives "late": if that read succeeds the
+            # failure was a matter of which answers the bounded survey happened to wait for
+            if self.control_read(kind):
+                return "intact-shares-not-located-by-the-bounded-survey"
+        if kind.startswith("dbv") and not self.runaway:
+            # control B: give every damaged share the most ordinary damage there is (the publisher's own share with one
+            # flipped block bit: accepted by the survey, dropped by the block check) and read again.  If this
+            # succeeds where control 0 failed, the failure was caused by the FORM of the damage in other shares.
+            saved = []
+            for vs in self.g.servers:
+                if vs.index in dmg.lying or not vs.connected:
+                    continue
+                for shnum, path in vs.shares_of(self.si).items():
+                    snap_raw = newest.get(vs.index, {}).get(shnum)
+                    with open(path, "rb") as f:
+                        now = f.read()
+                    if snap_raw is None or now == snap_raw:
+                        continue
+                    b = self.M.MutShare(raw=snap_raw)
+                    if b.fmt is None or b.num_segments() == 0:
+                        continue
+                    _, (bs_, be_) = b.block_span(0)
+                    b.flip(bs_, 1)
+                    saved.append((path, now))
+                    b.save(path)
+            if saved:
+                try:
+                    okB = self.control_read(kind)
+                finally:
+                    for path, now in saved:
+                        with open(path, "wb") as f:
+                            f.write(now)
+                if okB:
+                    return "damaged-share-breaks-the-validation-of-intact-shares"
         if kind.startswith("dbv"):
             # control experiment (classification only, never a verdict): list only the servers that hold an intact
             # share of the newest version, so that even the bounded surveys (MODE_READ asks 2k servers, the retry of a
@@ -902,16 +1068,11 @@ class History(object):
             for vs in hidden:
                 vs.hidden = True
             try:
-                c3 = self.g.make_client(k=p["k"], happy=1, n=p["n"], mutable_format=p["fmt"])
-                uri = self.ro_uri if kind == "dbv-ro-fresh" else self.rw_uri
-                st3, r3 = self.g.wait(c3.create_node_from_uri(uri).download_best_version(),
-                                      horizon=4 * 3600.0, max_steps=MAX_STEPS)
+                okA = self.control_read(kind)
             finally:
                 for vs in hidden:
                     vs.hidden = False
-            if st3 not in ("ok", "err"):
-                self.runaway = True
-            if st3 == "ok" and self.match(r3, 0, None) is not None:
+            if okA:
                 return "intact-shares-not-located-by-the-bounded-survey"
         clean = set()
         for vs in self.g.servers:
@@ -946,8 +1107,13 @@ class Skip(Exception):
 #   c10-block-leaf-not-checked              block-hash leaf never set                             caught  delivered-unpublished-bytes/block, /salt-iv
 #   c10-bad-share-aborts-read               _handle_bad_share re-raises BadShareError             caught  read-aborted-by-CorruptShareError-despite-k-intact-shares
 #   c10-unknown-pubkey-trusted-after-first  signature only checked for the first version seen     caught  delivered-unpublished-bytes/forged, /crossfile
-# Violations of the unchanged tree (analysed as genuine, see the report to the lead):
-#   sdmf-iv-not-checked-against-signed-prefix-at-retrieve/uncached-reader, intact-shares-not-located-by-the-bounded-survey,
-#   intact-shares-discarded-with-a-bad-share-on-the-same-server, connection-lost-on-another-server-aborts-the-read,
-#   share-with-edited-unsigned-offset-table-outranks-intact-shares, read-never-completes/bad-copy-of-a-duplicated-share-number-retried-forever,
-#   servermap-update-finishes-at-once-when-a-query-fails-synchronously
+#   seeded/C10-3 (get_sharehashes lost its struct.error handler)       caught  read-aborted-by-error-despite-k-intact-shares  (family truncate-inside)
+#   seeded/C10-4 (IncompleteHashTree.set_hashes no rollback on IndexError) caught  damaged-share-breaks-the-validation-of-intact-shares,
+#                                                                              delivered-unpublished-bytes/poison-chain  (family poison-chain)
+# History: seven violation classes of the tree this check was written against; five were fixed in /repo (SDMF IV vs signed
+# prefix, whole server dropped for one bad share, ConnectionLost aborting a read, bad copy of a duplicated share number retried
+# forever, servermap update finishing at once on a synchronous query failure).  Known findings that remain:
+#   intact-shares-not-located-by-the-bounded-survey, share-with-edited-unsigned-offset-table-outranks-intact-shares
+# Availability failures are classified by control reads (never verdicts) under a deterministic, coverage-favourable
+# schedule: same grid (=> survey race/coverage), ordinary damage in place of the actual damage (=> form of damage), only
+# holders of intact shares listed (=> coverage).
